@@ -76,6 +76,12 @@ def recorder(name, beh=None):
             if act[0] == 'modify':
                 request.add_header(b'X-Tag-' + name.encode(), act[1] or name.encode())
                 return request
+            if act[0] == 'replace':
+                # a plugin may also hand back a NEW request object instead of mutating its argument
+                from proxy.http.parser import HttpParser
+                fresh = HttpParser.request(request.build(for_proxy=bool(request.host) and not request.is_https_tunnel))
+                fresh.add_header(b'X-Tag-' + name.encode(), act[1] or name.encode())
+                return fresh
             if act[0] == 'drop':
                 return None
             if act[0] == 'reject':
